@@ -16,3 +16,7 @@ NA.update({
  'C42': 'real OS processes, Manager dict, ProcessPoolExecutor: interleavings behind IPC boundaries unreachable for symbolic execution of the real code',
  'C44': 'process pool / futures / compiler subprocesses; a TLA+/Promela model would be a different technique family',
 })
+claim('C07', 'model_checking',
+      'Bounded solver check: for every string of a stated finite family of well-formed Fortran expressions (all chains of <=3/4 binary operators with signs and parentheses, both comparison spellings, logical operators, kinds, subscripts, components, intrinsics) z3 shows parse_expr\'s tree and the FP frontend\'s tree for the same text have equal value for every valuation in the bound; the frontend oracle is itself cross-checked per string against an independent reference parser; sat models are replayed with gfortran.',
+      'Trusted: value semantics in vlib/fsmt/sem.py, z3, gfortran for replay. Outside: strings/array constructors, overflow, FP rounding.',
+      'SMT equivalence (z3, Int/Real and sized bit-vector encodings) of parser tree vs frontend tree, compiler replay', 'E-SMT', 'DESIGN.md#C07')
